@@ -89,6 +89,9 @@ pub fn start_determining_calling_process_in_thread() {
             }
 
             determine_done.notify_all();
+            // Verification hook: lets a scenario order a query after this critical section.
+            #[cfg(dandavison_delta_verif_shuttle)]
+            crate::verif_hooks::trace_push("D-done");
         })
         .unwrap();
 }
